@@ -168,6 +168,16 @@ class CCtx:
                 continue
             self.path.sink.add(V.zbool(f) if not isinstance(f, bool) else z3.BoolVal(f))
 
+    def instantiate_call_facts(self, target, *idx):
+        """Explicitly instantiate the (proved) quantified postconditions recorded for calls
+        to `target` at the given index terms."""
+        for cl in self.path.ghosts.get("call_facts", {}).get(target, []):
+            f = cl.fn(*idx)
+            rng = V.b_and(*[V.b_and(V.i_le(lo, i), V.i_lt(i, b)) for i, b, lo in zip(idx, cl.bounds, cl.lower)])
+            f = V.b_implies(rng, f)
+            if f is not True:
+                self.path.sink.add(V.zbool(f) if not isinstance(f, bool) else z3.BoolVal(f))
+
     @property
     def symbolic(self):
         return self.mode != "concrete"
@@ -250,6 +260,15 @@ class Contract:
         r = self.spec(c, **bound)
         if r is NotImplemented:
             r = self.post(c, **bound)
+        elif getattr(self, "assume_ensures_at_calls", False):
+            # the ensures clauses are proved for every input satisfying `requires`, so they
+            # are available as facts about this call's result
+            c.tag = self.target + "@call"
+            for name, cl in _named(self.ensures(c, r, **bound)):
+                assume_clause(path, cl)
+                if isinstance(cl, Forall):
+                    # kept for explicit instantiation by property-level clauses
+                    path.ghosts.setdefault("call_facts", {}).setdefault(self.target, []).append(cl)
         return r
 
 
